@@ -436,7 +436,8 @@ pub fn run_c14(a: &Args) {
     let mut out = Out::new(&a.out, "c14", 40_000);
     let mut rng = Rng::new(a.seed, 14);
     let c = corpus(a, &mut rng, true);
-    let long = if a.quick() { 60 } else { 20_000 };
+    // (a walk over all 16,000 transitions up to year 9999 takes TLC a quarter of an hour per zone)
+    let long = if a.quick() { 60 } else { 600 };
     for z in &c.zones {
         let az = match tzcorpus::load(z) {
             Ok(az) => az,
@@ -449,9 +450,14 @@ pub fn run_c14(a: &Args) {
         out.soft_cut(25_000);
         out.set_header(vec![zone_event(&az, &z.class)]);
         let pts = change_points(a, &az, &mut rng);
-        for &(t, cls) in &pts {
+        for (pi, &(t, cls)) in pts.iter().enumerate() {
+            // the thorough tier: every recorded transition with all seven offsets, every third rule point with
+            // three (an iterator event costs TLC about 6 ms; all points x all offsets was 32 million events)
+            if !a.quick() && cls.starts_with("rule") && pi % 3 != 0 {
+                continue;
+            }
             let n = t as i128 * 1_000_000_000;
-            let deltas: &[i128] = if cls.starts_with("rule") && a.quick() {
+            let deltas: &[i128] = if cls.starts_with("rule") {
                 &[-1, 0, 1]
             } else {
                 &[-1_000_000_000, -500_000_000, -1, 0, 1, 500_000_000, 1_000_000_000]
